@@ -62,8 +62,22 @@ def run_case(case):
     pr = probes.SolverProbe()
     with pr.installed():
         ys_ref, extra_ref = zoo.solve(cell, sde, y0, ts, dt, bm=new_bm(), extra=True)
-    grid = [pr.steps[0]["t0_raw"]] + [s["t1_raw"] for s in pr.steps]
-    nsteps = len(pr.steps)
+    logged = [pr.steps[0]["t0_raw"]] + [s["t1_raw"] for s in pr.steps]
+    # Restart points: the step grid of the property's statement, ts[0] + k dt, built by the same float recurrence the
+    # step loop uses (t <- t + dt in ts's dtype) and cross-checked against the grid the one-shot run was SEEN to take.
+    # On a healthy tree the two coincide (C12 demands it); if they do not, the restart points are still the nominal
+    # ones, so a solver whose one-shot grid deviates from the nominal grid in a way that depends on where a call ends
+    # (e.g. merged last steps) is exposed here as chunked != one-shot instead of breaking the harness.
+    grid, t = [ts[0]], ts[0]
+    while True:
+        t = t + dt
+        if not bool(ts[-1] - t >= 1e-6 * dt):
+            break
+        grid.append(t)
+    grid.append(ts[-1])
+    nsteps = len(grid) - 1
+    if len(logged) != len(grid) or any(float(a) != float(b) for a, b in zip(logged, grid)):
+        cnt["one_shot_grid_differs_from_nominal_grid"] = 1
     interior = list(range(1, nsteps))
     if case["mode"] == "single":
         cutsets = [(i,) for i in interior]
